@@ -73,6 +73,11 @@ pub fn histories(tier: Tier) -> Vec<Vec<usize>> {
         prod(S4, 4, &mut v);
         prod(S3, 5, &mut v);
     }
+    // staged amounts beyond 1 MiB (whole multiples and not), so that any chunked copy of the staged bytes
+    // has to go round more than once and ends on a partial chunk
+    for big in [vec![1_048_676usize], vec![1_048_576], vec![600_000, 600_000], vec![2_200_000], vec![3, 1_100_000, 5]] {
+        v.push(big);
+    }
     v
 }
 
